@@ -266,6 +266,14 @@ macro_rules! field_common {
             "is_zero" => Some(Ok(Out::Bool($arg($regs, p[0])?.is_zero()))),
             "to_slice" => Some(Ok(Out::Bytes($arg($regs, p[0])?.to_slice().to_vec()))),
             "from_slice" => Some(opt($T::from_slice(&a_bytes(p[0])?), Val::$T)),
+            // composite observation: x == from_slice(to_slice(x))
+            "rt_eq" => {
+                let x = $arg($regs, p[0])?;
+                Some(Ok(match $T::from_slice(&x.to_slice()) {
+                    Some(y) => Out::Bool(x == y),
+                    None => Out::None,
+                }))
+            }
             "try_from" => Some(Ok(match $T::try_from(&a_bytes(p[0])?[..]) {
                 Ok(v) => Out::V(Val::$T(v)),
                 Err(e) => Out::Err(format!("{:?}", e)),
@@ -578,14 +586,10 @@ fn run_line(regs: &mut Regs, line: &str) -> String {
             Out::Text(t) => (format!("ok {}", t), None),
         },
     };
+    // a call that produced no value (None, Err, panic, protocol error) leaves the destination register as it was
     if dst != "_" {
-        match store {
-            Some(v) => {
-                regs.insert(dst.to_string(), v);
-            }
-            None => {
-                regs.remove(dst);
-            }
+        if let Some(v) = store {
+            regs.insert(dst.to_string(), v);
         }
     }
     text
